@@ -2,7 +2,7 @@
 //! table as part of their query. If they can't, the query will not be routed.
 
 use async_trait::async_trait;
-use sqlparser::ast::{visit_relations, Statement};
+use sqlparser::ast::{visit_relations, CopySource, ObjectName, Statement};
 
 use crate::{
     errors::Error,
@@ -32,7 +32,7 @@ impl<'a> Plugin for TableAccess<'a> {
 
         let mut found = None;
 
-        visit_relations(ast, |relation| {
+        let mut check = |relation: &ObjectName| {
             // Postgres folds unquoted identifiers to lower case and takes quoted ones verbatim:
             // SECRET, Secret and "secret" all name the table `secret`.
             let table_name = match relation.0.last() {
@@ -47,7 +47,26 @@ impl<'a> Plugin for TableAccess<'a> {
             } else {
                 ControlFlow::<()>::Continue(())
             }
-        });
+        };
+
+        // The relation visitor does not report the table of COPY <table> TO/FROM
+        // nor the objects of DROP.
+        for statement in ast {
+            let names: &[ObjectName] = match statement {
+                Statement::Copy {
+                    source: CopySource::Table { table_name, .. },
+                    ..
+                } => std::slice::from_ref(table_name),
+                Statement::Drop { names, .. } => names,
+                _ => &[],
+            };
+
+            if names.iter().any(|name| check(name).is_break()) {
+                break;
+            }
+        }
+
+        let _ = visit_relations(ast, &mut check);
 
         if let Some(found) = found {
             debug!("Blocking access to table \"{}\"", found);
